@@ -4,7 +4,7 @@
    independence of the modelled steps from the connector); agreement of the NumPy / TensorFlow /
    JAX numerics themselves is a differential test in the check, not a theorem. *)
 From Coq Require Import List Arith Ring QArith.
-From PV Require Import C09.ConnModel C09.ListLemmas C09.ConnProofs C09.Carriers.
+From PV Require Import C09.ConnModel C09.ListLemmas C09.ConnProofs C09.Carriers C09.FermiProofs C09.RelSpecs C09.HelperModel C09.HelperProofs.
 Import ListNotations.
 Open Scope nat_scope.
 
@@ -108,12 +108,101 @@ Proof.
   exact (conj (numpy_connector_ok A zero one add mul inv)
               (generic_connector_ok A zero one add mul sub opp inv Rth)).
 Qed.
+
+(* calculate_interferometer_on_fermionic_fock_space: the generic version (connections.py, run with
+   every connector's assign), the numba version (numpy_/connections.py, precomputed tables) and the
+   vectorised JAX version (jax_/connections.py, sign vector and sum over the last axis), modelled
+   as written, return the same representations for every matrix over a commutative ring and
+   every cutoff *)
+Theorem C09_fermi_variants_agree : forall M cutoff,
+  fermi_reps A one (fermi_numba_level A zero add mul opp) M cutoff =
+  fermi_reps A one (fermi_generic_level A zero add mul opp) M cutoff /\
+  fermi_reps A one (fermi_jax_level A zero add mul opp) M cutoff =
+  fermi_reps A one (fermi_generic_level A zero add mul opp) M cutoff.
+Proof. exact (fermi_variants_agree A zero one add mul sub opp Rth). Qed.
 End Algebra.
 Print Assumptions C09_generic_rep_eq_numba_rep.
 Print Assumptions C09_numba_rep_entry.
 Print Assumptions C09_passive_step_connector_independent.
 Print Assumptions C09_gaussian_mean_step_connector_independent.
 Print Assumptions C09_reference_connectors_ok.
+Print Assumptions C09_fermi_variants_agree.
+
+(* with the helper-index tuple itself modelled (C09/HelperModel.v, tied exactly to
+   calculate_interferometer_helper_indices): for every number of modes d >= 1, every cutoff, every
+   d x d matrix over a commutative ring and any weight function, the einsum version and the numba
+   kernel return the same representations on the tuple the simulator really passes *)
+Theorem C09_generic_rep_eq_numba_rep_on_helper :
+  forall (A : Type) (zero one : A) (add mul sub : A -> A -> A) (opp inv : A -> A) (sqrtA : Z -> A),
+  ring_theory zero one add mul sub opp (@eq A) ->
+  forall (U : list (list A)) d cutoff, 1 <= d ->
+  (forall k, k < d -> length (nth k U []) = d) ->
+  generic_reps A zero one add mul (div A mul inv) U (helper A sqrtA d cutoff)
+  = numba_reps A zero one add mul (div A mul inv) U (helper A sqrtA d cutoff).
+Proof. exact generic_eq_numba_on_helper. Qed.
+Print Assumptions C09_generic_rep_eq_numba_rep_on_helper.
+
+(* Non-unique library operations (polar, svd, Takagi, sqrtm, logm, Euler) are specified by the
+   relation their result must satisfy (C09/RelSpecs.v: is_polar_left, is_svd, is_takagi, is_sqrtm,
+   is_logm, is_euler), over an abstract matrix algebra given by its laws. *)
+Section Relational.
+Variable Mx : Type.
+Variables (mmul madd : Mx -> Mx -> Mx) (adj conj tr : Mx -> Mx) (I O : Mx) (mexp : Mx -> Mx).
+Variables (is_psd is_diag_nonneg : Mx -> Prop) (ch sh : Mx -> Mx).
+Hypothesis mmul_assoc : forall a b c, mmul a (mmul b c) = mmul (mmul a b) c.
+Hypothesis mmul_O_r : forall a, mmul a O = O.
+Hypothesis mmul_O_l : forall a, mmul O a = O.
+Hypothesis madd_O_r : forall a, madd a O = a.
+Hypothesis madd_O_l : forall a, madd O a = a.
+Hypothesis conj_O : conj O = O.
+
+(* the Euler-decomposed `linear` gate of the pure Fock simulator WITHOUT truncation (its
+   Heisenberg-picture action passive(U_first); squeezing(D); passive(U_last)) is the same for any
+   two connectors whose euler() satisfies the relation, however different their factors are *)
+Theorem C09_linear_gate_untruncated_connector_independent :
+  forall (euler1 euler2 : bogo Mx -> Mx * Mx * Mx) (G : bogo Mx),
+  is_euler Mx mmul adj conj I ch sh G (euler1 G) ->
+  is_euler Mx mmul adj conj I ch sh G (euler2 G) ->
+  linear_action Mx mmul madd conj O ch sh euler1 G = linear_action Mx mmul madd conj O ch sh euler2 G.
+Proof.
+  exact (linear_action_connector_independent Mx mmul madd adj conj tr I O mexp is_psd is_diag_nonneg ch sh
+           mmul_assoc mmul_O_r mmul_O_l madd_O_r madd_O_l conj_O).
+Qed.
+
+(* ... and it is the instruction's own (passive, active) block pair *)
+Theorem C09_linear_gate_untruncated_is_blocks :
+  forall (euler_fn : bogo Mx -> Mx * Mx * Mx) (G : bogo Mx),
+  euler_reconstructs Mx mmul conj ch sh G (euler_fn G) ->
+  linear_action Mx mmul madd conj O ch sh euler_fn G = G.
+Proof.
+  exact (linear_action_is_blocks Mx mmul madd conj O ch sh
+           mmul_assoc mmul_O_r mmul_O_l madd_O_r madd_O_l conj_O).
+Qed.
+
+(* the factors themselves are not determined: a real Q with Q Q^dagger = I that commutes with the
+   squeezing blocks (any real orthogonal Q for degenerate squeezings, e.g. Squeezing2) turns valid
+   factors into other valid factors.  The code applies the three factors on the TRUNCATED Fock space
+   with per-mode truncated squeezers, which is not a function of the block pair alone: that case is
+   the visible exception, the open finding C09:pure_fock:linear-gate:truncated-euler-nonunique *)
+Hypothesis conj_mmul : forall a b, conj (mmul a b) = mmul (conj a) (conj b).
+Hypothesis mmul_I_r : forall a, mmul a I = a.
+Theorem C09_euler_factors_not_unique : forall (G : bogo Mx) (U D V Q : Mx),
+  euler_reconstructs Mx mmul conj ch sh G (U, D, V) ->
+  mmul Q (adj Q) = I -> conj (adj Q) = adj Q ->
+  mmul Q (ch D) = mmul (ch D) Q -> mmul Q (sh D) = mmul (sh D) Q ->
+  euler_reconstructs Mx mmul conj ch sh G (mmul U Q, D, mmul (adj Q) V).
+Proof. exact (euler_factors_not_unique Mx mmul adj conj I ch sh mmul_assoc conj_mmul mmul_I_r). Qed.
+End Relational.
+Print Assumptions C09_linear_gate_untruncated_connector_independent.
+Print Assumptions C09_linear_gate_untruncated_is_blocks.
+Print Assumptions C09_euler_factors_not_unique.
+
+(* the laws assumed of the matrix algebra are satisfiable (1 x 1 integer matrices), and the
+   untruncated action of factors (2, 3, 5) with ch = sh = identity is the expected pair *)
+Example C09_example_relational_instance :
+  linear_action Z Z.mul Z.add (fun x => x) 0%Z (fun x => x) (fun x => x) (fun _ => (2, 3, 5)%Z) (30, 30)%Z
+  = (30, 30)%Z.
+Proof. reflexivity. Qed.
 
 (* non-vacuity: repeated index, last value stays; negative index normalisation *)
 Example C09_example_repeated_index :
